@@ -19,6 +19,9 @@ func universeModel() *openfgav1.AuthorizationModel {
 				&openfgav1.RelationReference{Type: "user", Condition: c},
 				&openfgav1.RelationReference{Type: "user", Condition: c, RelationOrWildcard: &openfgav1.RelationReference_Wildcard{Wildcard: &openfgav1.Wildcard{}}},
 				&openfgav1.RelationReference{Type: "group", Condition: c, RelationOrWildcard: &openfgav1.RelationReference_Relation{Relation: "member"}},
+				&openfgav1.RelationReference{Type: "group", Condition: c, RelationOrWildcard: &openfgav1.RelationReference_Relation{Relation: "viewer"}},
+				&openfgav1.RelationReference{Type: "doc", Condition: c, RelationOrWildcard: &openfgav1.RelationReference_Relation{Relation: "member"}},
+				&openfgav1.RelationReference{Type: "doc", Condition: c, RelationOrWildcard: &openfgav1.RelationReference_Relation{Relation: "viewer"}},
 				&openfgav1.RelationReference{Type: "doc", Condition: c})
 		}
 		return out
